@@ -286,6 +286,34 @@ Qed.
 Lemma heap_sorted_empty : heap_objs_sorted empty_heap.
 Proof. intro oid. unfold get_obj, empty_heap. cbn [objs]. rewrite PM.gempty. exact I. Qed.
 
+(* a decision procedure for the sortedness of a concrete heap *)
+Fixpoint keys_ascending_b (ks : list bytes) : bool :=
+  match ks with
+  | [] => true
+  | k :: rest =>
+    match rest with
+    | [] => true
+    | k' :: _ => (match bytes_cmp k k' with Lt => true | _ => false end) && keys_ascending_b rest
+    end
+  end.
+
+Lemma keys_ascending_b_ok : forall ks, keys_ascending_b ks = true -> keys_ascending ks.
+Proof.
+  induction ks as [|k rest IH]; intro H; [exact I|].
+  destruct rest as [|k' r]; [exact I|].
+  cbn [keys_ascending_b] in H. apply andb_true_iff in H. destruct H as [H1 H2].
+  split; [destruct (bytes_cmp k k'); try discriminate; reflexivity | apply IH; exact H2].
+Qed.
+
+Lemma heap_objs_sorted_check : forall h,
+  forallb (fun kv => keys_ascending_b (map fst (snd kv))) (PM.elements (objs h)) = true ->
+  heap_objs_sorted h.
+Proof.
+  intros h H oid. unfold get_obj. destruct (PM.find oid (objs h)) as [l|] eqn:Hf; [|exact I].
+  apply PM.elements_correct in Hf. rewrite forallb_forall in H.
+  apply keys_ascending_b_ok. exact (H _ Hf).
+Qed.
+
 Section Laws.
   Variable src : bytes.
   Variable funcs : list func.
@@ -915,6 +943,22 @@ Section Laws.
     rewrite (forin_header_steps _ _ _ _ _ _ _ _ _ _ _ H1 H2 H3), Hv. apply forin_fold_map.
   Qed.
 
+  (* on a heap whose objects are sorted the keys are visited in ascending byte order *)
+  Lemma forin_object_keys_ascending : forall n id ix iter body st local st1 ixlocal st2 ic st3 oid,
+    resolve_var src id id st = (Ok local, st1) ->
+    resolve_index src ix id st1 = (Ok ixlocal, st2) ->
+    EE n iter st2 = (Ok ic, st3) ->
+    load (hp st3) ic = VObj oid ->
+    heap_objs_sorted (hp st3) ->
+    exists keys, keys_ascending keys /\
+      ES (S n) (SForIn id ix iter body) st =
+      forin_fold (obj_setup local ixlocal oid) (fun k => EB k body) n keys st3.
+  Proof.
+    intros n id ix iter body st local st1 ixlocal st2 ic st3 oid H1 H2 H3 Hv Hs.
+    exists (map fst (get_obj (hp st3) oid)). split; [apply Hs|].
+    eapply forin_over_object; eassumption.
+  Qed.
+
   (* every element exactly once, in order *)
   Lemma forin_once_in_order : forall n id ix iter body st bindings st1,
     forin_header src funcs fuzzing n id ix iter st = (Ok bindings, st1) ->
@@ -1446,11 +1490,15 @@ Section Laws.
   Qed.
 
   (* the statements themselves *)
-  Lemma break_stmt : forall n t s, ES (S n) (SBreak t) s = (Sig SigBreak, s).
+  (* break / continue / next note their token (ghost event: e.signalToken) and signal *)
+  Lemma break_stmt : forall n t s,
+    ES (S n) (SBreak t) s = (Sig SigBreak, snd (note_signal t s)).
   Proof. reflexivity. Qed.
-  Lemma continue_stmt : forall n t s, ES (S n) (SContinue t) s = (Sig SigContinue, s).
+  Lemma continue_stmt : forall n t s,
+    ES (S n) (SContinue t) s = (Sig SigContinue, snd (note_signal t s)).
   Proof. reflexivity. Qed.
-  Lemma next_stmt : forall n t s, ES (S n) (SNext t) s = (Sig SigNext, s).
+  Lemma next_stmt : forall n t s,
+    ES (S n) (SNext t) s = (Sig SigNext, snd (note_signal t s)).
   Proof. reflexivity. Qed.
   Lemma exit_stmt : forall n t s, ES (S n) (SExit t) s = (Sig SigExit, s).
   Proof. reflexivity. Qed.
@@ -1803,4 +1851,167 @@ Proof.
     split.
     + intro Hne. rewrite Hrest. apply parse_for_rest_needs_semicolon. exact Hne.
     + intros s p' H. rewrite Hrest in H. eapply parse_for_rest_is_for. exact H.
+Qed.
+
+(* ------------------------------------------------------------------ no misattached else, anywhere *)
+
+Lemma parse_block_items_unfold : forall n acc p,
+  parse_block_items (S n) acc p =
+  (do t <- pcurtag;
+   if (tag_eqb t TEOF || tag_eqb t TRCurly)%bool then pret (rev acc)
+   else
+     do s <- parse_statement n;
+     do e <- at_statement_end;
+     if e then parse_block_items n (s :: acc) else perr_cur) p.
+Proof. reflexivity. Qed.
+
+Lemma existsb_rev' : forall {A} (f : A -> bool) l, existsb f (rev l) = existsb f l.
+Proof.
+  intros A f. induction l as [|x l IH]; [reflexivity|].
+  cbn [rev existsb]. rewrite existsb_app, IH. cbn [existsb]. rewrite orb_false_r. apply orb_comm.
+Qed.
+
+Ltac mis_shape H :=
+  repeat first
+    [ match type of H with
+      | pret _ _ = POk _ _ => fail 1
+      | (if ?c then _ else _) _ = POk _ _ => destruct c
+      | perr_cur _ = POk _ _ => discriminate H
+      | _ => pinv H
+      end ];
+  match type of H with
+  | pret _ _ = POk _ _ => apply pret_ok in H; destruct H as [<- _]; reflexivity
+  end.
+
+Lemma parser_never_misattaches : forall n,
+  (forall p s p', parse_statement n p = POk s p' -> misattached_else s = false) /\
+  (forall p s p', parse_loop_body n p = POk s p' -> misattached_else s = false) /\
+  (forall pre p s p', parse_for_rest n pre p = POk s p' -> misattached_else s = false) /\
+  (forall p s p', parse_block n p = POk s p' -> misattached_else s = false) /\
+  (forall acc p l p', existsb misattached_else acc = false ->
+     parse_block_items n acc p = POk l p' -> existsb misattached_else l = false).
+Proof.
+  induction n as [|n (IHs & IHb & IHf & IHk & IHi)].
+  - repeat split; intros; discriminate.
+  - split; [|split; [|split; [|split]]].
+    + intros p s p' H. rewrite parse_statement_unfold in H.
+      pinv H. pinv H. pinv H.
+      destruct (ttag a0) eqn:Htag; try solve [mis_shape H].
+      * (* if *)
+        pinv H. pinv H. pinv H. pinv H. pinv H. pinv H.
+        match goal with Hx : pcurtag _ = POk _ _ |- _ =>
+          apply pcurtag_ok in Hx; destruct Hx as [-> ->] end.
+        match type of H with (if ?c then _ else _) _ = _ => destruct c eqn:He end.
+        -- pinv H. pinv H. apply pret_ok in H. destruct H as [<- _].
+           cbn [misattached_else].
+           match goal with
+           | Hb : parse_statement n _ = POk ?b ?q, Hel : parse_statement n _ = POk ?e _
+             |- (ends_in_open_if ?b || _ || misattached_else ?e)%bool = false =>
+             rewrite (IHs _ _ _ Hb), (IHs _ _ _ Hel);
+             destruct (ends_in_open_if b) eqn:Ho; [|reflexivity];
+             exfalso; apply tag_eqb_eq in He;
+             exact (proj1 (open_if_not_before_else n) _ _ _ Hb Ho He)
+           end.
+        -- apply pret_ok in H. destruct H as [<- _]. cbn [misattached_else].
+           match goal with Hb : parse_statement n _ = POk ?b _ |- misattached_else ?b = false =>
+             exact (IHs _ _ _ Hb) end.
+      * (* for *)
+        pinv H. pinv H. pinv H. pinv H.
+        match type of H with (match ?c with Some _ => _ | None => _ end) _ = _ =>
+          destruct c as [id|] end.
+        -- match type of H with (if ?c then _ else _) _ = _ => destruct c end.
+           ++ pinv H. pinv H. pinv H. pinv H. pinv H.
+              apply pret_ok in H. destruct H as [<- _]. cbn [misattached_else].
+              match goal with Hx : parse_loop_body n _ = POk ?e _ |- _ => exact (IHb _ _ _ Hx) end.
+           ++ exact (IHf _ _ _ _ H).
+        -- exact (IHf _ _ _ _ H).
+      * (* while *)
+        pinv H. pinv H. pinv H. pinv H. pinv H.
+        apply pret_ok in H. destruct H as [<- _]. cbn [misattached_else].
+        match goal with Hx : parse_loop_body n _ = POk ?e _ |- _ => exact (IHb _ _ _ Hx) end.
+      * (* block *)
+        exact (IHk _ _ _ H).
+    + intros p s p' H. rewrite parse_loop_body_unfold in H.
+      pinv H. pinv H. pinv H. pinv H. apply pret_ok in H. destruct H as [<- _].
+      match goal with Hx : parse_statement n _ = POk ?e _ |- _ => exact (IHs _ _ _ Hx) end.
+    + intros pre p s p' H. rewrite parse_for_rest_unfold in H.
+      pinv H. pinv H. pinv H. pinv H. pinv H. pinv H. apply pret_ok in H. destruct H as [<- _].
+      cbn [misattached_else].
+      match goal with Hx : parse_loop_body n _ = POk ?e _ |- _ => exact (IHb _ _ _ Hx) end.
+    + intros p s p' H. rewrite parse_block_unfold in H.
+      pinv H. pinv H. pinv H. pinv H. pinv H. apply pret_ok in H. destruct H as [<- _].
+      cbn [misattached_else].
+      match goal with Hx : parse_block_items n [] _ = POk ?l _ |- _ =>
+        exact (IHi [] _ _ _ eq_refl Hx) end.
+    + intros acc p l p' Hacc H. rewrite parse_block_items_unfold in H.
+      pinv H.
+      match type of H with (if ?c then _ else _) _ = _ => destruct c end.
+      * apply pret_ok in H. destruct H as [<- _]. rewrite existsb_rev'. exact Hacc.
+      * pinv H. pinv H.
+        match type of H with (if ?c then _ else _) _ = _ => destruct c end; [|discriminate H].
+        eapply IHi; [|exact H]. cbn [existsb].
+        match goal with Hx : parse_statement n _ = POk ?e _ |- _ => rewrite (IHs _ _ _ Hx) end.
+        exact Hacc.
+Qed.
+
+Lemma parse_rule_ok : forall n p r p',
+  parse_rule_ n p = POk r p' -> misattached_else (rbody r) = false.
+Proof.
+  intros n p r p' H. unfold parse_rule_ in H.
+  pinv H. pinv H. destruct a0 as [kind pat]. pinv H.
+  match type of H with (if ?c then _ else _) _ = _ => destruct c end.
+  - pinv H. apply pret_ok in H. destruct H as [<- _]. cbn [rbody].
+    match goal with Hx : parse_block n _ = POk ?e _ |- _ =>
+      exact (proj1 (proj2 (proj2 (proj2 (parser_never_misattaches n)))) _ _ _ Hx) end.
+  - apply pret_ok in H. destruct H as [<- _]. reflexivity.
+Qed.
+
+Lemma parse_function_ok : forall n p f p',
+  parse_function n p = POk f p' -> misattached_else (fbody f) = false.
+Proof.
+  intros n p f p' H. unfold parse_function in H.
+  repeat pinv H. apply pret_ok in H. destruct H as [<- _]. cbn [fbody].
+  match goal with Hx : parse_block n _ = POk ?e _ |- _ =>
+    exact (proj1 (proj2 (proj2 (proj2 (parser_never_misattaches n)))) _ _ _ Hx) end.
+Qed.
+
+Lemma forallb_rev' : forall {A} (f : A -> bool) l, forallb f (rev l) = forallb f l.
+Proof.
+  intros A f. induction l as [|x l IH]; [reflexivity|].
+  cbn [rev forallb]. rewrite forallb_app, IH. cbn [forallb]. rewrite andb_true_r. apply andb_comm.
+Qed.
+
+Lemma parse_toplevel_ok : forall n rules fns p prog p',
+  forallb (fun r => negb (misattached_else (rbody r))) rules = true ->
+  forallb (fun f => negb (misattached_else (fbody f))) fns = true ->
+  parse_toplevel n rules fns p = POk prog p' -> program_else_ok prog = true.
+Proof.
+  induction n as [|n IH]; intros rules fns p prog p' Hr Hf H; [discriminate|].
+  change (parse_toplevel (S n) rules fns p) with
+    ((do t <- pcurtag;
+      if tag_eqb t TEOF then pret (mkProg (rev rules) (rev fns))
+      else if tag_eqb t TFunction then
+        do fn <- parse_function n; parse_toplevel n rules (fn :: fns)
+      else
+        do r <- parse_rule_ n; parse_toplevel n (r :: rules) fns) p) in H.
+  pinv H.
+  match type of H with (if ?c then _ else _) _ = _ => destruct c end.
+  - apply pret_ok in H. destruct H as [<- _]. unfold program_else_ok. cbn [prules pfuncs].
+    rewrite !forallb_rev', Hr, Hf. reflexivity.
+  - match type of H with (if ?c then _ else _) _ = _ => destruct c end.
+    + pinv H. eapply IH; [exact Hr | | exact H]. cbn [forallb].
+      match goal with Hx : parse_function n _ = POk ?e _ |- _ =>
+        rewrite (parse_function_ok _ _ _ _ Hx) end. exact Hf.
+    + pinv H. eapply IH; [| exact Hf | exact H]. cbn [forallb].
+      match goal with Hx : parse_rule_ n _ = POk ?e _ |- _ =>
+        rewrite (parse_rule_ok _ _ _ _ Hx) end. exact Hr.
+Qed.
+
+(* for EVERY program text: no else of the parsed program is attached to an if whose
+   then-branch ends in an if without else *)
+Theorem program_else_binding : forall src prog p',
+  parse_program src = POk prog p' -> program_else_ok prog = true.
+Proof.
+  intros src prog p' H. unfold parse_program, parse_program_fuel in H.
+  pinv H. eapply parse_toplevel_ok; [| | exact H]; reflexivity.
 Qed.
